@@ -498,7 +498,7 @@ func (db *DB) doProcessIterations(iterations []*iteration) {
 					itVals[itI] = val
 				}
 			}
-			itMore, err := it.onValue(dims, itVals)
+			itMore, err := it.safeOnValue(dims, itVals)
 			if err != nil {
 				// this iteration failed: report the error to it alone and keep
 				// serving the others
@@ -535,6 +535,20 @@ func (db *DB) doProcessIterations(iterations []*iteration) {
 			it.errCh <- err
 		}
 	}
+}
+
+// safeOnValue calls onValue and turns a panic in the query's pipeline (e.g. a
+// dimension function evaluated on unexpected input) into an error for this
+// iteration alone: the scan runs on a database goroutine, where an unrecovered
+// panic would take the whole process down.
+func (it *iteration) safeOnValue(dims bytemap.ByteMap, vals []encoding.Sequence) (more bool, err error) {
+	defer func() {
+		if p := recover(); p != nil {
+			more = false
+			err = fmt.Errorf("Panic while processing row: %v", p)
+		}
+	}()
+	return it.onValue(dims, vals)
 }
 
 func (it *iteration) indexOfOutField(field core.Field) int {
